@@ -682,6 +682,8 @@ class Exec(Engine):
                 for r in list(h.roots):
                     h.roots[r] = fresh('yn_' + r, so.YNode)
                     h.assume(so.is_N(h.roots[r]))
+                if h.sav is not None and self.may_trace():
+                    h.sav = fresh('sav', so.TySeq)
             return h
         outs = []
         h = havoc(st)
@@ -717,6 +719,15 @@ class Exec(Engine):
         if hexit.feasible():
             outs.extend(self.exec_block(s.orelse, hexit))
         return outs
+
+    def may_trace(self):
+        """can the code of the current activation reach a savorize/sweeten
+        hook?  (only functions whose contract says traces(), and un-contracted
+        code inlined into them)"""
+        for fr in reversed(self.frames):
+            if fr.contract is not None:
+                return fr.contract.traces
+        return True
 
     def restore_pinned_roots(self, h, pre):
         """a havocked root that the invariant equates with its pre-loop value
@@ -894,6 +905,8 @@ class Exec(Engine):
         return s
 
     def havoc_modifies(self, fn, c, post, post_env, pre, env):
+        if c.traces and post.sav is not None:
+            post.sav = fresh('sav_post', so.TySeq)
         for m in c.modifies:
             ref = self.eval_place(m, pre, env)
             new = fresh('yn_post', so.YNode)
